@@ -1153,6 +1153,93 @@ def rebinding_programs():
     return out
 
 
+# (e) augmented assignment and the objects it touches: the old value of the target stays what it was for every other reference to it
+# (immutable operands are never changed in place: aliases, other container slots, default arguments, constants of the code object, the
+# operand of an earlier unary + / abs / int), a list target IS changed in place and stays the same object.
+AUG_OPS = ['+=', '-=', '*=', '//=', '%=', '**=', '<<=', '>>=', '&=', '|=', '^=', '/=']
+AUG_PAIRS = [('2 ** 70', '3'), ('2 ** 70', '2 ** 70 + 1'), ('-(2 ** 70)', '7'), ('2 ** 63 - 1', '1'), ('-(2 ** 63)', '-1'), ('5', '2 ** 70'), ('7', '2'), ('2 ** 64', '-5'), ('3 ** 50', '2 ** 65'),
+             ('2.5', '2'), ('"ab"', '"c"'), ('"ab"', '2'), ('(1, 2)', '(3,)'), ('(1, 2)', '2'), ('[1, 2]', '[3]'), ('[1, 2]', '2'), ('b"ab"', 'b"c"'), ('1180591620717411303424', '1'), ('2 ** 200', '2 ** 100')]
+AUG_HEAD = """class O:
+    pass
+def t1(a, r):
+    b = a
+    try:
+        a %(op)s r
+    except (TypeError, ValueError, ZeroDivisionError, OverflowError):
+        print("exc")
+    print("name", a, b, r)
+def t2(a, r):
+    L = [a, a, 0]
+    t = L[0]
+    try:
+        L[0] %(op)s r
+    except (TypeError, ValueError, ZeroDivisionError, OverflowError):
+        print("exc")
+    print("item", L, t, r)
+def t3(a, r):
+    o = O()
+    p = O()
+    o.x = a
+    p.x = a
+    try:
+        o.x %(op)s r
+    except (TypeError, ValueError, ZeroDivisionError, OverflowError):
+        print("exc")
+    print("attr", o.x, p.x, r)
+def t4(a, r):
+    c = a
+    try:
+        d = +c
+        e = abs(c)
+        d %(op)s r
+        e %(op)s r
+        print("unary", c, d, e)
+    except (TypeError, ValueError, ZeroDivisionError, OverflowError):
+        print("exc", c)
+def t5(r, k=%(init)s):
+    try:
+        k %(op)s r
+    except (TypeError, ValueError, ZeroDivisionError, OverflowError):
+        print("exc")
+    return k
+def t6(r):
+    k = %(init)s
+    j = %(init)s
+    try:
+        k %(op)s r
+    except (TypeError, ValueError, ZeroDivisionError, OverflowError):
+        print("exc")
+    return k, j
+def t7(a, r):
+    acc = a
+    seen = []
+    try:
+        for i in range(3):
+            seen.append(acc)
+            acc %(op)s r
+    except (TypeError, ValueError, ZeroDivisionError, OverflowError):
+        print("exc")
+    print("running", seen, acc)
+"""
+
+
+def augalias_programs():
+    out = []
+    for oi, op in enumerate(AUG_OPS):
+        for pi, (init, rhs) in enumerate(AUG_PAIRS):
+            if op == '%=' and init[0] in '"b':
+                continue                      # % on str / bytes is formatting, not arithmetic
+            if op == '**=':
+                rhs = '2'                     # t7 applies the operator three times
+            if op == '<<=' and '**' in rhs:
+                rhs = '3'
+            src = AUG_HEAD % {'op': op, 'init': init}
+            src += 'A = %s\nR = %s\n' % (init, rhs)
+            src += 't1(A, R)\nt2(A, R)\nt3(A, R)\nt4(A, R)\nprint("default", t5(R), t5(R))\nprint("const", t6(R), t6(R))\nt7(A, R)\nprint("after", A, R)\n'
+            out.append({'id': 'aug-%d-%d' % (oi, pi), 'op': op, 'init': init, 'rhs': rhs, 'src': src})
+    return out
+
+
 class Item:
     __slots__ = ('part', 'tags', 'code', 'key', 'nontrivial', 'node', 'model', 'single', 'tokens', 'env')
 
@@ -1465,6 +1552,28 @@ def run(tier, rep):
                           {'case': {'id': c['id'], 'src': c['src']}, 'statement': c['stmt'], 'context': c['ctx'], 'expected': {k: e.get(k) for k in ('out', 'exc')},
                            'got': {k: short(g.get(k), 1200) for k in ('out', 'exc', 'excmsg', 'cerr', 'panic', 'stack') if g.get(k)}})
     extra['rebinding_programs'] = rb_n
+
+    # (e) augmented assignment never changes an immutable operand in place (see augalias_programs)
+    ag = augalias_programs()
+    ag_exp = oracle_exec(ag)
+    ag_got, _ = run_vrun('exec', ag, timeout_case=20)
+    ag_n = 0
+    for c in ag:
+        e, g = ag_exp.get(c['id']) or {}, ag_got.get(c['id'])
+        if g is None or e.get('oracle_failed') or e.get('cerr'):
+            rep.inconc('augmented-assignment aliasing program %s: no result / oracle failed' % c['id'])
+            continue
+        evaluated += 1
+        ag_n += 1
+        nontriv.add(('augalias', c['op'], c['init']))
+        if g.get('panic') or g.get('crash') or (g.get('exc') or None) != (e.get('exc') or None) or g.get('out') != e.get('out') or g.get('cerr'):
+            el, gl = (e.get('out') or '').split('\n'), (g.get('out') or '').split('\n')
+            where = next((x.split(' ')[0] for x, y in zip(el, gl + [''] * len(el)) if x != y), 'exception')
+            kind = 'int' if '**' in c['init'] or c['init'].lstrip('-(').isdigit() else ('float' if '.' in c['init'] else c['init'][0])
+            rep.violation('C01|augmented-assignment-object-semantics|op=%s|operand=%s|%s' % (c['op'], kind, 'panic' if g.get('panic') or g.get('crash') else where),
+                          {'case': {'id': c['id'], 'src': c['src']}, 'operator': c['op'], 'initial': c['init'], 'right': c['rhs'], 'expected': {k: e.get(k) for k in ('out', 'exc')},
+                           'got': {k: short(g.get(k), 1500) for k in ('out', 'exc', 'excmsg', 'cerr', 'panic', 'stack') if g.get(k)}})
+    extra['augmented_assignment_aliasing_programs'] = ag_n
 
     rep.evaluations += evaluated
     rep.nontrivial = nontriv
